@@ -159,7 +159,7 @@ A_C07 == [][Tr_C07_deposit(S, S') /\ Tr_C07_release(S, S')]_vars
 A_C08 == [][Tr_C08_begin(S, S') /\ Tr_C08_status(S, S') /\ Tr_C08_finish(S, S')]_vars
 A_C08b == [][Tr_C08_ingest(S, S')]_vars
 A_C08c == [][Tr_C08_ontime(S, S')]_vars
-A_C09 == [][Tr_C09_onlyReserved(S, S') /\ Tr_C09_exclusive(S, S') /\ Tr_C09_size(S, S') /\ Tr_C09_released(S, S')]_vars
+A_C09 == [][Tr_C09_onlyReserved(S, S') /\ Tr_C09_exclusive(S, S') /\ Tr_C09_size(S, S') /\ Tr_C09_fixed(S, S') /\ Tr_C09_released(S, S')]_vars
 (* the monitor's row equals the true state at the beginning of the step *)
 A_C12 == [][(S'.mon.rows = S.mon.rows + 1) => (Row(S) = TrueRow(S) /\ Tr_C12_rowcount(S, S'))]_vars
 A_C15 == [][Tr_C15_flag(S, S')]_vars
